@@ -20,6 +20,8 @@
 // the C interface is used from threads as well (it forwards to the same functions)
 #include "gm2calc/MSSMNoFV_onshell.h"
 #include "gm2calc/THDM.h"
+#include "gm2calc/SM.h"
+#include "gm2calc/gm2_error.h"
 #include "gm2calc/gm2_1loop.h"
 #include "gm2calc/gm2_2loop.h"
 #include "gm2calc/gm2_uncertainty.h"
@@ -125,6 +127,81 @@ void make_from_slha(const std::string& text, const std::string& type, MSSMNoFV_o
    else { io.fill_gm2calc(*m); m->calculate_masses(); }
    *mo = m.release();
 }
+
+namespace {
+void throw_for(gm2calc_error e)
+{
+   switch (e) {
+   case gm2calc_NoError: return;
+   case gm2calc_InvalidInput: throw gm2calc::EInvalidInput("C interface: invalid input");
+   case gm2calc_PhysicalProblem: throw gm2calc::EPhysicalProblem("C interface: physical problem");
+   default: throw gm2calc::ESetupError("C interface: unknown error");
+   }
+}
+} // namespace
+
+MSSMNoFV_onshell* make_mssm_c(const MssmPoint& p)
+{
+   ::MSSMNoFV_onshell* h = gm2calc_mssmnofv_new();
+   struct Guard { ::MSSMNoFV_onshell* h; ~Guard() { if (h) gm2calc_mssmnofv_free(h); } } g{h};
+   const double pi = 3.14159265358979323846;
+   gm2calc_mssmnofv_set_alpha_MZ(h, 0.0077552); gm2calc_mssmnofv_set_alpha_thompson(h, 0.00729735); gm2calc_mssmnofv_set_g3(h, std::sqrt(4 * pi * 0.1184));
+   gm2calc_mssmnofv_set_MT_pole(h, 173.34); gm2calc_mssmnofv_set_MB_running(h, 4.18); gm2calc_mssmnofv_set_MM_pole(h, 0.1056583715); gm2calc_mssmnofv_set_ML_pole(h, 1.777);
+   gm2calc_mssmnofv_set_MW_pole(h, p.MW); gm2calc_mssmnofv_set_MZ_pole(h, p.MZ);
+   if (p.mode == 1) {
+      const double F = p.pole_scale;
+      gm2calc_mssmnofv_set_MSvmL_pole(h, 5.18860573e+02 * F); gm2calc_mssmnofv_set_MSm_pole(h, 0, 5.05095249e+02 * F); gm2calc_mssmnofv_set_MSm_pole(h, 1, 5.25187016e+02 * F);
+      gm2calc_mssmnofv_set_MChi_pole(h, 0, 2.01611468e+02 * F); gm2calc_mssmnofv_set_MChi_pole(h, 1, 4.10040273e+02 * F); gm2calc_mssmnofv_set_MChi_pole(h, 2, -5.16529941e+02 * F); gm2calc_mssmnofv_set_MChi_pole(h, 3, 5.45628749e+02 * F);
+      gm2calc_mssmnofv_set_MCha_pole(h, 0, 4.09989890e+02 * F); gm2calc_mssmnofv_set_MCha_pole(h, 1, 5.46057190e+02 * F);
+   }
+   gm2calc_mssmnofv_set_MAh_pole(h, p.MA); gm2calc_mssmnofv_set_TB(h, p.TB); gm2calc_mssmnofv_set_Mu(h, p.Mu);
+   gm2calc_mssmnofv_set_MassB(h, p.M1); gm2calc_mssmnofv_set_MassWB(h, p.M2); gm2calc_mssmnofv_set_MassG(h, p.M3);
+   for (unsigned i = 0; i < 3; ++i) {
+      gm2calc_mssmnofv_set_mq2(h, i, i, p.mq2[i]); gm2calc_mssmnofv_set_mu2(h, i, i, p.mu2[i]); gm2calc_mssmnofv_set_md2(h, i, i, p.md2[i]);
+      gm2calc_mssmnofv_set_ml2(h, i, i, p.ml2[i]); gm2calc_mssmnofv_set_me2(h, i, i, p.me2[i]);
+   }
+   gm2calc_mssmnofv_set_Au(h, 2, 2, p.Au33); gm2calc_mssmnofv_set_Ad(h, 2, 2, p.Ad33); gm2calc_mssmnofv_set_Ae(h, 1, 1, p.Ae22); gm2calc_mssmnofv_set_Ae(h, 2, 2, p.Ae33);
+   gm2calc_mssmnofv_set_scale(h, p.scale);
+   reinterpret_cast<MSSMNoFV_onshell*>(h)->do_force_output(p.force_output); // (no C setter for this flag)
+   throw_for(p.mode == 0 ? gm2calc_mssmnofv_calculate_masses(h) : gm2calc_mssmnofv_convert_to_onshell_params(h, p.precision, p.max_iter));
+   g.h = nullptr;
+   return reinterpret_cast<MSSMNoFV_onshell*>(h);
+}
+
+THDM* make_thdm_c(const ThdmPoint& p)
+{
+   ::gm2calc_SM sm; gm2calc_sm_set_to_default(&sm);
+   sm.alpha_em_mz = p.alpha_em_mz; sm.mu[2] = p.mt; sm.mu[1] = 1.28; sm.md[2] = p.mb; sm.ml[2] = p.mtau; sm.mh = p.mhSM;
+   ::gm2calc_THDM_config cfg; gm2calc_thdm_config_set_to_default(&cfg);
+   cfg.force_output = p.force_output; cfg.running_couplings = p.running_couplings;
+   const double D[3][3] = {{0.1, 0.2, 0.3}, {0.4, 0.5, 0.6}, {0.7, 0.8, 0.9}};
+   ::gm2calc_THDM* h = nullptr;
+   if (p.gauge) {
+      ::gm2calc_THDM_gauge_basis b; std::memset(&b, 0, sizeof b);
+      b.yukawa_type = (gm2calc_THDM_yukawa_type)p.yukawa_type;
+      for (int i = 0; i < 7; ++i) b.lambda[i] = p.lambda[i];
+      b.tan_beta = p.tb; b.m122 = p.m122; b.zeta_u = p.zeta_u; b.zeta_d = p.zeta_d; b.zeta_l = p.zeta_l;
+      for (int i = 0; i < 3; ++i) for (int k = 0; k < 3; ++k) {
+         b.Delta_u[i][k] = p.delta_scale * D[i][k]; b.Delta_d[i][k] = 2 * p.delta_scale * D[i][k]; b.Delta_l[i][k] = 3 * p.delta_scale * D[i][k];
+         b.Pi_u[i][k] = p.pi_scale * D[i][k]; b.Pi_d[i][k] = 2 * p.pi_scale * D[i][k]; b.Pi_l[i][k] = 3 * p.pi_scale * D[i][k];
+      }
+      throw_for(gm2calc_thdm_new_with_gauge_basis(&h, &b, &sm, &cfg));
+   } else {
+      ::gm2calc_THDM_mass_basis b; std::memset(&b, 0, sizeof b);
+      b.yukawa_type = (gm2calc_THDM_yukawa_type)p.yukawa_type;
+      b.mh = p.mh; b.mH = p.mH; b.mA = p.mA; b.mHp = p.mHp; b.sin_beta_minus_alpha = p.sba; b.lambda_6 = p.l6; b.lambda_7 = p.l7;
+      b.tan_beta = p.tb; b.m122 = p.m122; b.zeta_u = p.zeta_u; b.zeta_d = p.zeta_d; b.zeta_l = p.zeta_l;
+      for (int i = 0; i < 3; ++i) for (int k = 0; k < 3; ++k) {
+         b.Delta_u[i][k] = p.delta_scale * D[i][k]; b.Delta_d[i][k] = 2 * p.delta_scale * D[i][k]; b.Delta_l[i][k] = 3 * p.delta_scale * D[i][k];
+         b.Pi_u[i][k] = p.pi_scale * D[i][k]; b.Pi_d[i][k] = 2 * p.pi_scale * D[i][k]; b.Pi_l[i][k] = 3 * p.pi_scale * D[i][k];
+      }
+      throw_for(gm2calc_thdm_new_with_mass_basis(&h, &b, &sm, &cfg));
+   }
+   if (!h) throw gm2calc::ESetupError("C interface: no error code but no model");
+   return reinterpret_cast<THDM*>(h);
+}
+void destroy_c(MSSMNoFV_onshell* m) { gm2calc_mssmnofv_free(reinterpret_cast<::MSSMNoFV_onshell*>(m)); }
+void destroy_c(THDM* m) { gm2calc_thdm_free(reinterpret_cast<::gm2calc_THDM*>(m)); }
 
 MSSMNoFV_onshell* copy_mssm(const MSSMNoFV_onshell& m) { return new MSSMNoFV_onshell(m); }
 THDM* copy_thdm(const THDM& m) { return new THDM(m); }
